@@ -257,6 +257,8 @@ def compile_font(case, writer_name):
     kw = {}
     if case.get("skip"):
         kw["skipExportGlyphs"] = list(case["skip"])
+    if case.get("default_writers"):
+        ws = None  # the default writer list (kern, mark, gdef, curs): used by the replay of KF-C05-2
     with guard("compileTTF with %s" % W.__module__):
         ttf = ufo2ft.compileTTF(S.build(spec, S.ufo_module(case["module"])), useProductionNames=False, featureWriters=ws, **kw)
         b = io.BytesIO()
